@@ -30,8 +30,25 @@ def gen_arb(rng, tier):
         feat = [f for f in ALL_FEATURES if (f in ("err", "rty") and f in afeat) or rng.random() < 0.5]
         intrs.append({"gran": ig, "features": feat,
                       "behaviour": rng.choice(["random", "random", "sticky", "greedy", "locker", "polite"])})
-    return {"n": n, "aw": rng.choice([4, 6, 8, 16, 30]), "dw": dw, "gran": gran, "features": afeat, "intrs": intrs,
-            "cycles": (300 if tier == "quick" else 900) * (8 if rng.random() < 0.04 else 1)}
+    case = {"n": n, "aw": rng.choice([4, 6, 8, 16, 30]), "dw": dw, "gran": gran, "features": afeat, "intrs": intrs,
+            "scenario": "normal", "cycles": (300 if tier == "quick" else 900) * (8 if rng.random() < 0.04 else 1)}
+    x = rng.random()
+    if x < 0.06 and n >= 2:
+        # an owner parks the bus under LOCK for hundreds of cycles (slow locked read-modify-write)
+        case["scenario"] = "long_park"
+        if "lock" not in afeat:
+            afeat.append("lock")
+        k = rng.randrange(n)
+        if "lock" not in intrs[k]["features"]:
+            intrs[k]["features"].append("lock")
+        intrs[k]["behaviour"] = "parker"
+        case["cycles"] = rng.choice([900, 1500])
+    elif x < 0.12:
+        # the target leaves strobes unanswered for hundreds of cycles (wait states)
+        case["scenario"] = "slow_target"
+        intrs[rng.randrange(n)]["behaviour"] = "patient"
+        case["cycles"] = rng.choice([900, 1500])
+    return case
 
 
 def fanout(sel, n_in, ratio):
@@ -90,6 +107,33 @@ def run_arb_case(case, judged):
             if beh == "locker" and "lock" in feat:
                 r["stb"] = rng.getrandbits(1)          # between transfers of a locked cycle
             return r
+        if beh == "parker":
+            # one transfer, then cyc & lock held with stb low for a long stretch, then release
+            phase = st.setdefault("park_phase", 0)
+            st["park_phase"] = (phase + 1) % 3
+            r = {"adr": i, "dat_w": 0, "sel": 0, "we": 0, "cyc": 1, "stb": int(phase == 0), "lock": 1}
+            if phase == 0:
+                st["hold"][i] = rng.randint(1, 3)
+            elif phase == 1:
+                st["hold"][i] = rng.choice([40, 270, 300, 520])
+            else:
+                r.update(cyc=0, lock=0)
+                st["hold"][i] = rng.randint(0, 3)
+            for f, v in (("cti", 0), ("bte", 0)):
+                if f in feat:
+                    r[f] = v
+            st["held"][i] = r
+            return r
+        if beh == "patient":
+            # holds its request until answered, however long the target takes
+            r = {"adr": (rng.getrandbits(aw) >> idx_bits << idx_bits | i) & ((1 << aw) - 1), "dat_w": bits(rng, dw),
+                 "sel": bits(rng, nsel), "we": rng.getrandbits(1), "cyc": 1, "stb": 1}
+            for f, v in (("lock", 0), ("cti", 0), ("bte", 0)):
+                if f in feat:
+                    r[f] = v
+            st["hold"][i] = rng.choice([20, 280, 300, 600])
+            st["held"][i] = r
+            return r
         r = {"adr": (rng.getrandbits(aw) >> idx_bits << idx_bits | i) & ((1 << aw) - 1),
              "dat_w": biased_bits(rng, dw), "sel": biased_bits(rng, nsel), "we": rng.getrandbits(1),
              "cyc": int(rng.random() < 0.45), "stb": int(rng.random() < 0.5)}
@@ -130,6 +174,15 @@ def run_arb_case(case, judged):
             for f in ("err", "rty", "stall"):
                 if f in afeat:
                     resp[f] = rng.getrandbits(1)
+            if case.get("scenario") == "slow_target":
+                if st.get("silent", 0) > 0:
+                    st["silent"] -= 1
+                    resp["ack"] = 0
+                    for f in ("err", "rty"):
+                        if f in afeat:
+                            resp[f] = 0
+                elif rng.random() < 0.02:
+                    st["silent"] = rng.choice([100, 280, 400, 600])
             for k, v in resp.items():
                 setv(ctx, getattr(bus, k), v)
             # ---- identify the owner from the shared bus
@@ -220,6 +273,7 @@ def run_arb_case(case, judged):
     mon.count("ownership_changes", st["changes"])
     mon.count("released_transitions", st["released_transitions"])
     mon.bin("n_initiators", n)
+    mon.bin("scenario", case.get("scenario", "normal"))
     mon.bin("arbiter_features", tuple(sorted(afeat)))
     summary = {"n": n, "aw": aw, "dw": dw, "gran": gran, "features": sorted(afeat),
                "intrs": [(d["gran"], sorted(d["features"]), d["behaviour"]) for d in case["intrs"]],
